@@ -80,6 +80,48 @@ class C12(Check):
                     cases.append(c)
         return cases
 
+    def dcd_cases(self, maxlen):
+        """case split of unlink_slot / connect inside an emission: every word over {disconnect, connect} x {own slot,
+        a pending slot} executed by slot 0.0 while (E0, signal 0) is emitting - entries marked disconnected stay in
+        the list, so the k-th disconnect has to skip k-1 dead duplicates; then listeners die and E0 emits again"""
+        letters = ['d 0 0 0 0', 'c 0 0 0 0', 'd 0 0 1 1', 'c 0 0 1 1']
+        cases = []
+        for n in range(2, maxlen + 1):
+            for seq in itertools.product(letters, repeat=n):
+                if not any(a[0] == 'd' for a in seq) or not any(a[0] == 'c' for a in seq):
+                    continue
+                for nested in (0, 1):
+                    c = ['@2 2 1 3'] + ['def 0 0 ' + a for a in seq]
+                    if nested:
+                        c += ['def 1 2 e 0 0']          # a later slot re-emits: the marks survive a nested activation
+                    c += ['c 0 0 0 0', 'c 0 0 1 1']
+                    if nested:
+                        c += ['c 0 0 1 2']
+                    c += ['e 0 0', 'e 0 0', 'xl 0', 'e 0 0', 'xl 1', 'e 0 0', 'xe 0']
+                    cases.append(c)
+        return cases
+
+    def nest_cases(self, maxlen):
+        """case splits of emit_end / invalidated / the destructors: slot 0.0 re-emits the same signal down to the
+        depth limit, slot 0.3 emits another signal of the same emitter, slot 1.1 is pending in every one of these
+        emissions; an actor slot (before or after the pending one) runs every word over an alphabet of
+        disconnect / connect / destroy listener / destroy emitter / emit at the innermost level first"""
+        alpha = ['d 0 0 1 1', 'c 0 0 1 1', 'xl 1', 'xl 0', 'xe 0', 'xe 1', 'e 0 0', 'e 0 1', 'e 1 0',
+                 'd 0 1 1 1', 'c 0 1 1 1', 'd 0 0 0 3']
+        cases = []
+        for n in range(1, maxlen + 1):
+            for seq in itertools.product(alpha, repeat=n):
+                for order in (0, 1):
+                    for maxd in (2, 3):
+                        c = ['@2 2 2 %d' % maxd, 'def 0 0 e 0 0', 'def 0 3 e 0 1', 'def 1 0 e 1 0']
+                        c += ['def 0 2 ' + a for a in seq]
+                        c += ['c 0 0 0 0']
+                        c += ['c 0 0 0 2', 'c 0 0 1 1'] if order == 0 else ['c 0 0 1 1', 'c 0 0 0 2']
+                        c += ['c 0 0 0 3', 'c 0 1 1 1', 'c 0 1 0 2', 'c 1 0 1 1', 'c 1 0 1 0', 'c 1 0 0 2']
+                        c += ['e 0 0', 'e 0 1', 'e 1 0', 'e 0 0', 'xl 0', 'e 0 0', 'e 1 0', 'xl 1', 'xe 0', 'xe 1']
+                        cases.append(c)
+        return cases
+
     def random_case(self, rng):
         ne, nl = rng.choice([2, 2, 3]), rng.choice([2, 3, 3])
         nsg = rng.choice([1, 1, 2])
@@ -146,6 +188,10 @@ class C12(Check):
         out = []
         out.append(Stream('exh', self.exh_cases(3 if thorough else 2), exhaustive=True,
                           note='all action sequences of length <= %d over a 12-action alphabet inside one emission, 2 surrounding configurations' % (3 if thorough else 2)))
+        out.append(Stream('dcd', self.dcd_cases(6 if thorough else 5), exhaustive=True,
+                          note='all words of length <= %d over {disconnect, connect} x {own slot, pending slot} inside one emission, with and without a nested re-emission' % (6 if thorough else 5)))
+        out.append(Stream('nest', self.small_enough(self.nest_cases(3 if thorough else 2)), exhaustive=True,
+                          note='recursive re-emission to the depth limit + second signal of the same emitter + pending slot; actor words of length <= %d over a 12-action alphabet, 2 slot orders, 2 depth limits' % (3 if thorough else 2)))
         ec = self.edge_cases(rng)
         out.append(Stream('edge', ec[:10] + self.small_enough(ec[10:]), note='destroyed objects, unknown signals, never-connected slots, duplicates'))
         out.append(Stream('random', self.small_enough([self.random_case(rng) for _ in range(6000 if thorough else 1200)]),
